@@ -132,3 +132,15 @@ register('C06', 'translation_validation',
          "full path for list requests; the request/permutation quantifier is bounded enumeration; population outputs "
          "under C16, inputs under C08, edges under C01",
          "SMT translation validation of the function captured inside run() + tag flow (symx + z3)", "7/C06")
+register('C07', 'translation_validation',
+         "Circuits whose nodes share NodeTemplate/OperatorTemplate objects (and the same circuits without sharing) go "
+         "through bounded histories of override operations - update_var scalar, wildcard scalar, per-node array, partial "
+         "wildcard, edge-attribute update, apply(node_values=/edge_values=) - starting with per-node initial values. The "
+         "expected model is the spec with exactly the addressed slots overridden; the compiled function is validated "
+         "against it: fingerprints locate every overridden value in the returned arguments/initial state, and z3 proves "
+         "the vector field equals the expected model for all states and parameters, so a value that reaches the wrong "
+         "node, a sibling sharing the template, or nothing at all is a counterexample.",
+         "reals for floats; histories are bounded sampling (2 initialising + <= 2/5 operations, 5 flat or 10 hierarchical "
+         "nodes): the solver decides the function per history, not the history quantifier; update_template is exercised "
+         "under C14/C15",
+         "SMT translation validation after override histories (symx + z3)", "7/C07")
